@@ -101,6 +101,9 @@ func (s *Spec) GenValue(t *Type, r *HashRng, leafPath string, sink FileSink, dep
 		if len(s.LenChoices) > 0 && depth == 0 {
 			n = s.LenChoices[r.Intn(len(s.LenChoices))]
 		}
+		if s.EmptyPct > 0 && depth == 0 && r.Pct(s.EmptyPct) {
+			n = 0
+		}
 		out := make([]interface{}, 0, n)
 		for i := 0; i < n; i++ {
 			out = append(out, s.GenValue(t.Elem, r, fmt.Sprintf("%s.%d", leafPath, i), sink, depth+1))
@@ -110,6 +113,9 @@ func (s *Spec) GenValue(t *Type, r *HashRng, leafPath string, sink FileSink, dep
 		n := r.Intn(s.MaxLen + 1)
 		if len(s.LenChoices) > 0 && depth == 0 {
 			n = s.LenChoices[r.Intn(len(s.LenChoices))]
+		}
+		if s.EmptyPct > 0 && depth == 0 && r.Pct(s.EmptyPct) {
+			n = 0
 		}
 		pool := s.KeyPool
 		if len(pool) == 0 {
